@@ -39,7 +39,13 @@ class JSONCookie(SecureCookie):
         string = string.strip('"')  # this line is for a bug in werkzeug's
                                     # test client cookie jar usage:
                                     # https://github.com/pallets/werkzeug/issues/1060
-        return super(cls, JSONCookie).unserialize(string, secret_key)
+        try:
+            return super(cls, JSONCookie).unserialize(string, secret_key)
+        except Exception:
+            # the parent lets decoding errors of malformed values escape
+            # (e.g. binascii.Error for 'a?b'); a cookie that cannot be read
+            # is an empty cookie, never an error response
+            return cls((), secret_key, False)
 
     def set_expires(self, epoch_time=NOW):
         """
